@@ -54,7 +54,13 @@ void harness(void)
             int s = eav_setup(&e);
             VF_ASSERT((s == 0) == (want_ok != 0), "C15: eav_setup succeeds exactly for the four defined modes");
             if (s == 0) confirmed = asked;
-            else { VF_ASSERT(s == EEAV_INVALID_RFC, "C15: failure is EEAV_INVALID_RFC"); exp_err = EEAV_INVALID_RFC; VF_COVER(confirmed >= 0, "failed-setup-after-success"); }
+            else {
+                VF_ASSERT(s == EEAV_INVALID_RFC, "C15: failure is EEAV_INVALID_RFC");
+                exp_err = EEAV_INVALID_RFC;
+                VF_ASSERT(eav_errstr(&e) == cb_msg_of(EEAV_INVALID_RFC), "C15: after a failed eav_setup eav_errstr reports the invalid-RFC condition, whatever happened before");
+                VF_COVER(confirmed >= 0, "failed-setup-after-success");
+                VF_COVER(emails >= 1, "failed-setup-after-validation");
+            }
         } break;
         case OP_EMAIL: {
             if (confirmed < 0) break;                  /* legal histories only: validate after a successful setup */
@@ -116,6 +122,7 @@ void harness(void)
     VF_ASSERT(ik_live == 0, "C18: every IDN context created by eav_setup has been destroyed exactly once");
     VF_ASSERT(!ik_bad_destroy, "C18: never a destroy of a dead or foreign context");
 #endif
+    VF_FORGET(cb_last_result); VF_FORGET(cb_last_email);
     VF_COVER(emails >= 2, "two-validations");
     VF_END();
     /* --memory-leak-check: every result record and context must be released here */
